@@ -1,0 +1,107 @@
+//go:build verif
+// +build verif
+
+package logical
+
+import (
+	"com.tuntun.rangers/node/src/common"
+	"com.tuntun.rangers/node/src/consensus/groupsig"
+	"com.tuntun.rangers/node/src/consensus/model"
+	"com.tuntun.rangers/node/src/consensus/vrf"
+	"com.tuntun.rangers/node/src/core"
+	"com.tuntun.rangers/node/src/middleware/log"
+	"com.tuntun.rangers/node/src/middleware/types"
+	"math/big"
+	"strconv"
+)
+
+// Verification hook H3c: a started share-collecting round (round1) with injected
+// group, headers and chain; accessors for the collected share sets; exports of
+// the VRF qualification rule. Nothing here changes behaviour.
+
+func verifInitLoggers() {
+	if consensusLogger == nil {
+		consensusLogger = log.GetLoggerByIndex(log.ConsensusLogConfig, strconv.Itoa(common.InstanceIndex))
+	}
+	if stdLogger == nil {
+		stdLogger = log.GetLoggerByIndex(log.StdConsensusLogConfig, strconv.Itoa(common.InstanceIndex))
+	}
+}
+
+type VerifRound1 struct {
+	r *round1
+}
+
+// VerifNewRound1 builds round1 as round0.NextRound() leaves it (not started);
+// future holds messages stored before the round started (may be nil).
+func VerifNewRound1(group *model.GroupInfo, preBH, bh *types.BlockHeader, chain core.BlockChain, mi groupsig.ID, future map[string]model.ConsensusMessage) *VerifRound1 {
+	verifInitLoggers()
+	if future == nil {
+		future = make(map[string]model.ConsensusMessage)
+	}
+	r0 := &round0{baseRound: &baseRound{partyId: bh.Hash.String(), futureMessages: future,
+		processed: make(map[string]byte), errChan: make(chan error, 16), done: make(chan byte, 16),
+		logger: consensusLogger, number: 1},
+		mi: mi, blockchain: chain, preBH: preBH, bh: bh, group: group, changedId: make(chan string, 16)}
+	return &VerifRound1{r: &round1{round0: r0}}
+}
+
+func (v *VerifRound1) Start() error {
+	if e := v.r.Start(); e != nil {
+		return e
+	}
+	return nil
+}
+
+func (v *VerifRound1) CanAccept(msg model.ConsensusMessage) int { return v.r.CanAccept(msg) }
+
+// Update feeds one verify message exactly as baseParty.Update does for an
+// accepted message (the handler only; no party bookkeeping).
+func (v *VerifRound1) Update(msg model.ConsensusMessage) error {
+	if e := v.r.Update(msg); e != nil {
+		return e
+	}
+	return nil
+}
+
+func (v *VerifRound1) CanProceed() bool { return v.r.CanProceed() }
+
+// BlockShares / BeaconShares return copies of the two share sets (key = signer id hex).
+func (v *VerifRound1) BlockShares() map[string]groupsig.Signature {
+	return verifCopy(v.r.gSignGenerator)
+}
+func (v *VerifRound1) BeaconShares() map[string]groupsig.Signature {
+	return verifCopy(v.r.rSignGenerator)
+}
+
+func verifCopy(g *groupSignGenerator) map[string]groupsig.Signature {
+	out := make(map[string]groupsig.Signature)
+	if g == nil {
+		return out
+	}
+	for k, s := range g.witnessSignMap {
+		out[k] = s
+	}
+	return out
+}
+
+func (v *VerifRound1) Header() *types.BlockHeader { return v.r.bh }
+
+// CheckSignature runs round2.checkSignature on the recovered header fields.
+func (v *VerifRound1) CheckSignature() error {
+	if e := (&round2{round1: v.r}).checkSignature(v.r.group); e != nil {
+		return e
+	}
+	return nil
+}
+
+func VerifValidateProve(prove vrf.VRFProve, height, workingMiners, totalStake uint64) (bool, uint64) {
+	verifInitLoggers()
+	return validateProve(prove, height, workingMiners, totalStake)
+}
+
+func VerifCalQn(vrfValueRatio, stakeRatio *big.Rat) uint64 { return calQn(vrfValueRatio, stakeRatio) }
+
+func VerifCalcStakeRatio(difficulty, totalStake uint64) *big.Rat {
+	return calcStakeRatio(difficulty, totalStake)
+}
